@@ -756,8 +756,13 @@ func paramOfType(fn *ssa.Function, typ string) string {
 	return ""
 }
 
-func ruleC15Server(c *Ctx) {
-	const rule = "C15-SERVER"
+func ruleC15Server(c *Ctx) { ruleRPCServer("C15-SERVER")(c) }
+
+func ruleRPCServer(rule string) ruleFn {
+	return func(c *Ctx) { rpcServerRule(c, rule) }
+}
+
+func rpcServerRule(c *Ctx, rule string) {
 	c.Doc(rule, "rpc.Server: readWrite dispatches TypeRead/Write/Ping/Sync/Unmap on the equality edge of the request's type to handleRead/Write/Ping/Sync/Unmap and writes one reply for the message it read before it reads the next; each handler calls the matching DataProcessor method with the request's Data / Offset / Size (read: into a fresh buffer of Size bytes) and passes that call's count and error to createResponse; createResponse marks the reply TypeResponse, TypeEOF on io.EOF, and TypeError with the error text as payload whenever the error is non-nil")
 	rw := c.Anchor(rule, fRSrv+"readWrite")
 	if rw != nil {
